@@ -25,6 +25,7 @@ import (
 	"fmt"
 	"os"
 	"runtime"
+	"runtime/pprof"
 	"sort"
 	"sync"
 	"time"
@@ -139,7 +140,13 @@ func main() {
 	full := fs.Int("full", 200, "number of seeded full-stack cases per endpoint family")
 	tailMax := fs.Int("tail", 400, "max number of tail cases (each waits for the 1 s ticker)")
 	par := fs.Int("par", runtime.NumCPU(), "workers")
+	prof := fs.String("cpuprofile", "", "write a CPU profile")
 	fs.Parse(os.Args[2:])
+	if *prof != "" {
+		pf, _ := os.Create(*prof)
+		pprof.StartCPUProfile(pf)
+		defer pprof.StopCPUProfile()
+	}
 
 	// silence the chatty fmt.Printf/println debugging of the reader
 	devnull, _ := os.OpenFile(os.DevNull, os.O_WRONLY, 0)
